@@ -89,8 +89,9 @@ func (s *State) evalIndexAssigment(which ast.Node, index, value object.Object) o
 			return s.NewError("index assignment out of bounds: " + index.Inspect())
 		}
 		elements := object.Elements(val)
-		if object.Constant(id.Literal()) {
-			// Big arrays are updated in place: work on a copy so a refused change of a constant leaves it intact.
+		if object.Constant(id.Literal()) || isContainer(value) {
+			// Big arrays are updated in place: work on a copy so a refused change of a constant leaves it intact,
+			// and so an array can't end up containing itself (a[2] = a shares a's storage).
 			elements = slices.Clone(elements)
 		}
 		elements[idx] = value
@@ -101,7 +102,7 @@ func (s *State) evalIndexAssigment(which ast.Node, index, value object.Object) o
 		return value
 	case object.MAP:
 		m := val.(object.Map)
-		if object.Constant(id.Literal()) {
+		if object.Constant(id.Literal()) || isContainer(value) || isContainer(index) {
 			m = m.Append(object.NewMap()) // copy: big maps are updated in place, see above.
 		}
 		m = m.Set(index, value)
@@ -114,6 +115,12 @@ func (s *State) evalIndexAssigment(which ast.Node, index, value object.Object) o
 		return s.Errorf("index assignment to %s of unexpected type %s",
 			id.Literal(), val.Type().String())
 	}
+}
+
+// isContainer tells if the object is an array or a map, which may share their storage with a variable.
+func isContainer(o object.Object) bool {
+	t := o.Type()
+	return t == object.ARRAY || t == object.MAP
 }
 
 func argCheck[T any](s *State, msg string, n int, vararg bool, args []T) *object.Error {
